@@ -140,8 +140,15 @@ func main() {
 		cmd := exec.Command("timeout", append([]string{"-k", "5", fmt.Sprint(*replayTimeout), "go"}, targs...)...)
 		cmd.Dir = *dir
 		cmd.Env = append(os.Environ(), "GOFLAGS=-mod=mod", "GOPROXY=off", "GODEBUG=goindex=0", "VERIF_TAPE="+*replay, "VERIF_EXPECT="+*expect)
+		if *raceOn {
+			cmd.Env = append(cmd.Env, "VERIF_SLEEPSCHED=1")
+		}
 		out, _ := cmd.CombinedOutput()
 		shown := false
+		if *expect == "race" && strings.Contains(string(out), "WARNING: DATA RACE") {
+			fmt.Println("VERIF-REPLAY the race detector reports a data race in the native run")
+			fmt.Println("VERIF-REPLAY REPRODUCED")
+		}
 		if *expect == "panic" && !strings.Contains(string(out), "VERIF-REPLAY REPRODUCED") {
 			for _, l := range strings.Split(string(out), "\n") {
 				if strings.HasPrefix(l, "panic:") || strings.HasPrefix(l, "fatal error:") {
@@ -242,7 +249,7 @@ func main() {
 		}
 		res := map[string]interface{}{
 			"entry": *entry, "dir": *dir, "load_s": load.Seconds(), "exec_s": time.Since(t1).Seconds(), "paths": e.paths, "forks": e.forks,
-			"steps": e.steps, "queries": e.sol.Queries, "sat": e.sol.Sat, "unsat": e.sol.Unsat, "unknown": e.sol.Unknown,
+			"steps": e.steps, "witnessed_sat": e.sol.Witnessed, "queries": e.sol.Queries, "sat": e.sol.Sat, "unsat": e.sol.Unsat, "unknown": e.sol.Unknown,
 			"solver_s": e.sol.Time.Seconds(), "terms": len(termList), "max_unwind": e.maxLoop, "unwind_bound": e.loopBound,
 			"preempt_bound": e.preemptBound, "covers": e.covers, "incomplete": e.incomplete, "path_ends": e.ends,
 		}
